@@ -43,6 +43,26 @@ def fam_gensteps(maxops):
     }
 
 
+def fam_calls(maxops):
+    """a completion-tracked event whose generator handler call()s twice; the second callee starts a chain
+    that is still in flight when the caller finishes"""
+    chain = {}
+    names = ['y2', 'y3', 'y4', 'y5', 'y6']
+    hs = {
+        '1': _h(1, ['x0'], 0, {'x0': [['call', {'name': 'y1'}, None], ['call', {'name': 'y2'}, None], ['ret', 1]]}),
+        '2': _h(1, ['y1'], 0, {'y1': [['ret', 2]]}),
+    }
+    for i, nm in enumerate(names):
+        nxt = names[i + 1] if i + 1 < len(names) else None
+        hs[str(3 + i)] = _h(1, [nm], 0, {nm: ([['fire', {'name': nxt}]] if nxt else [['ret', 9]])})
+    hs[str(3 + len(names))] = _h(1, ['x0_complete'], 0, {})
+    return {
+        'comps': {'1': {'chan': 'a'}}, 'handlers': hs,
+        'ext': [{'name': 'x0', 'flags': 4}, {'name': 'y2', 'flags': 4}],
+        'ops': ['fire', 'tick'], 'pre': [], 'maxops': maxops, 'firers': [1], 'flushers': [1], 'dyn': [],
+    }
+
+
 RANDOM_OPTS = {
     'ncomp': 2, 'shapes': ['plain', 'class'], 'nhandlers': (3, 8), 'prios': [-1, 0, 0, 1],
     'kinds': ['named', 'named', 'named', 'catchall'], 'nnames': 4,
@@ -123,6 +143,8 @@ def run(tier, replay=None):
              'hist_cap_quick': 800},
             {'name': 'generator-steps', 'programs': [fam_gensteps(2 if quick else 3)], 'hist_programs': [fam_gensteps(2 if quick else 3)],
              'hist_cap_quick': 600},
+            {'name': 'calls', 'programs': [fam_calls(2 if quick else 3)], 'hist_programs': [fam_calls(2 if quick else 3)],
+             'hist_cap_quick': 300},
         ],
         'teeth': [{'name': 'tree/CancelLeak', 'programs': [fam_tree(2)], 'variants': {'CancelLeak': True},
                    'expect': {'CompleteDelivered', 'ConformsC05'}},
